@@ -11,4 +11,6 @@ import J5V.Props.C14
 #print axioms J5V.Props.C14.C14_order_calls
 #print axioms J5V.Props.C14.C14_order_calls_pair
 #print axioms J5V.Props.C14.C14_load_indep
+#print axioms J5V.Props.C14.C14_perm_packages
+#print axioms J5V.Props.C14.C14_link_perm_others
 #print axioms J5V.Props.C14.C14_src_map_ranges_classified
